@@ -304,12 +304,27 @@ def _custom_contexts():
     lparent['x'] = 'lparent'
     lparent['w'] = 'lparent-w'
     linked = contexts.LinkedContext(lparent, linked_target)
+    # a host that overrides the variable-read function (language reference: every `$name` is a call of
+    # #get_context_data resolved through the context): `$w` comes from outside, everything else from the store
+    from yaql.language import specs, yaqltypes
+    over = std.create_child_context()
+    over['x'] = 'over-own'
+
+    @specs.parameter('name', yaqltypes.StringConstant())
+    @specs.name('#get_context_data')
+    def get_context_data(name, context):
+        if name == '$w':
+            return 'external-w'
+        return context[name]
+    over.register_function(get_context_data)
+    CUSTOM_EXTRA.append(('override', over, {'x': 'over-own', 'y': None, 'z': None, 'w': 'external-w'}))
     return [('multi', multi, {'x': 'b-own', 'y': 'a-parent-y', 'z': 'a-own', 'w': None}),
             ('linked', linked, {'x': 'linked-own', 'y': None, 'z': None, 'w': 'lparent-w'})]
 
 
 CUSTOM_TEXTS = ['$%s', '[1].select($%s).first()', 'let(q => 1) -> $%s', 'def(f, $%s) -> let(%s => 0) -> f()', '[$%s, 2].where(true).first()']
 CUSTOM = None
+CUSTOM_EXTRA = []
 NESTED_DOCS = [({'g': [[{'a': 1}, {'a': 2}], [{'a': 3}], []]}, '$.g.a', [[1, 2], [3], []]),
                ({'g': [[{'a': 1}], [{'a': 2}]]}, '$.g.select($.a)', [[1], [2]]),
                ({'g': [{'a': [1, 2]}, {'a': []}]}, '$.g.a', [[1, 2], []]),
@@ -319,14 +334,14 @@ CBOX = [(i,) for i in range(8)]
 
 def custom_context(c: int, t: int, n: int) -> bool:
     """
-    pre: 0 <= c < 2 and 0 <= t < len(CUSTOM_TEXTS) and 0 <= n < 4
+    pre: 0 <= c < 3 and 0 <= t < len(CUSTOM_TEXTS) and 0 <= n < 4
     post: _
     """
     global CUSTOM
     ci, ti, ni = CBOX[c][0], CBOX[t][0], CBOX[n][0]
     with H.NoTracing():
         if CUSTOM is None:
-            CUSTOM = _custom_contexts()
+            CUSTOM = _custom_contexts() + CUSTOM_EXTRA
         label, ctx, expect = CUSTOM[ci]
         name = 'xyzw'[ni]
         text = CUSTOM_TEXTS[ti].replace('%s', name)
@@ -340,12 +355,58 @@ def custom_context(c: int, t: int, n: int) -> bool:
     return H.done(ok)
 
 
+def _binder_names():
+    """every Python parameter name of every function registered in the standard context that is also a yaql keyword
+    (regenerated from the live registry): binder constructs must work for a variable of any such name"""
+    import inspect
+    import re
+    names = set(['x', 'self', 'cls'])
+    c = yq.ROOT
+    while c is not None:
+        for fds in getattr(c, '_functions', {}).values():
+            for fd in fds:
+                try:
+                    names.update(inspect.signature(fd.payload).parameters)
+                except (TypeError, ValueError):
+                    pass
+        c = c.parent
+    return [(n,) for n in sorted(names) if re.match(r'^[a-zA-Z][a-zA-Z0-9_]*$', n)
+            and n not in ('true', 'false', 'null', 'not', 'and', 'or', 'in')]
+
+
+BINDER_NAMES = _binder_names()
+BINDER_TEXTS = [('let(%s => 1) -> $%s', 1), ('def(f, $%s) -> f(%s => 5)', 5), ('[1, 2].unpack(%s, qq) -> $%s', 1),
+                ('let(%s => 1) -> [2].select($%s + $).first()', 3), ('let(%s => 1) -> let(%s => 2) -> $%s', 2),
+                ('[let(%s => 4) -> $%s, $%s]', [4, None])]
+BINDER_BOX = [(t,) for t in BINDER_TEXTS]
+
+
+def binder_names(n: int, t: int) -> bool:
+    """
+    pre: 0 <= n < len(BINDER_NAMES) and H.P('tlo', 0) <= t < H.P('thi', len(BINDER_TEXTS))
+    post: _
+    """
+    name, (tpl, want) = BINDER_NAMES[n][0], BINDER_BOX[t][0]
+    with H.NoTracing():
+        try:
+            got = ('ok', ENG(tpl.replace('%s', name)).evaluate(data=7, context=yq.ROOT.create_child_context()))
+        except Exception as e:
+            got = ('err', type(e).__name__)
+    return H.done(got == ('ok', want))
+
+
 def conditions(tier, seed):
     t = 150 if tier == 'quick' else 600
     out = [{'name': 'custom_context', 'func': 'custom_context', 'timeout': t,
-            'bounds': 'variables bound at different depths in the members of a MultiContext / behind a LinkedContext, read through 5 '
+            'bounds': 'variables bound at different depths in the members of a MultiContext / behind a LinkedContext / supplied by a host override of #get_context_data, read through 5 '
                       'expression shapes (plain, lambda, let, closure, where); member projection over documents nested two lists deep '
                       '(selectors; each path concrete)'}]
+    for lo in range(0, len(BINDER_TEXTS), 2):
+        out.append({'name': 'binder_names[%d-%d]' % (lo, lo + 1), 'func': 'binder_names', 'timeout': t,
+                    'param': {'tlo': lo, 'thi': lo + 2},
+                    'bounds': 'let / def+keyword call / unpack / nested let / scope exit with the variable named after each of '
+                              'the %d Python parameter names found in the live registry (templates %s; selectors, each path concrete)'
+                              % (len(BINDER_NAMES), [x[0] for x in BINDER_TEXTS[lo:lo + 2]])})
     seen = set()
     for sh in shard_list(tier, seed):
         name = 'shard[d%d %s %s]' % (sh['depth'], sh['doc'], show(sh['template']))
@@ -407,7 +468,13 @@ def replay(cond, args):
         ok = custom_context(**args)
         return {'reproduced': not ok, 'key': 'C04/custom-context',
                 'what': 'variable lookup through a %s context (expression %r, name %s) or member projection over a nested document '
-                        'differs from the language reference' % (['MultiContext', 'LinkedContext'][args['c']], CUSTOM_TEXTS[args['t']], 'xyzw'[args['n']])}
+                        'differs from the language reference' % (['MultiContext', 'LinkedContext', 'context overriding #get_context_data'][args['c']], CUSTOM_TEXTS[args['t']], 'xyzw'[args['n']])}
+    if cond['func'] == 'binder_names':
+        name, (tpl, want) = BINDER_NAMES[args['n']][0], BINDER_TEXTS[args['t']]
+        text = tpl.replace('%s', name)
+        got = engine_outcome(text, 7)
+        return {'reproduced': got != ('ok', want), 'key': 'C04/binder-name/%s' % name,
+                'what': '%s gives %r, the language reference %r' % (text, got, want)}
     ast = R.decode(fill_template(list(p.get('template', [None, None])), list(args['code'])), p.get('depth', 2))
     data = R.DOCS[p.get('doc', 'dict')][1](args['i1'], args['i2'], args['i3'])
     ok, text, got, exp = compare(ast, data)
